@@ -86,6 +86,8 @@ pub fn judge(case: &Value, reply: &Value) -> Vec<Violation> {
             "literal index does not point at its own text"
         } else if p.contains("expects") || p.contains("count") {
             "string count differs from the table length"
+        } else if p.contains("requests tables under other names") {
+            "the generated client requests a table under a name that is not the exported one"
         } else if p.contains("declares a string table type") {
             "generated code expects a table size no locale has"
         } else if p.contains("baked") || p.contains("generated code") {
@@ -141,6 +143,9 @@ pub fn account(
     if let Some(n) = reply["baked"]["index_reads"].as_u64() {
         *probes.entry("generated_index_reads_checked".into()).or_default() += n;
         *probes.entry("baked_tables_compared".into()).or_default() += reply["baked"]["tables"].as_u64().unwrap_or(0);
+    }
+    if let Some(n) = reply["baked"]["endpoints_checked"].as_u64() {
+        *probes.entry("generated_request_endpoints_checked".into()).or_default() += n;
     }
     if let Some(n) = reply["baked"]["table_types_checked"].as_u64() {
         *probes.entry("generated_table_types_checked".into()).or_default() += n;
